@@ -13,13 +13,14 @@ import (
 
 // ByzSpec is a structured (JSON-able) description of one adversarial injection.
 type ByzSpec struct {
-	Strat string `json:"s"`
-	As    int    `json:"as"` // identity index used as sender / signer (must be Byzantine or an outsider)
-	To    uint16 `json:"to"` // recipient mask (correct nodes)
-	H     uint64 `json:"h"`
-	V     uint64 `json:"v"`
-	P     []int  `json:"p,omitempty"` // strategy-specific parameters
-	Inst  uint64 `json:"inst,omitempty"` // offset added to the instance id of everything this injection signs (0 = this instance)
+	Strat   string `json:"s"`
+	As      int    `json:"as"` // identity index used as sender / signer (must be Byzantine or an outsider)
+	To      uint16 `json:"to"` // recipient mask (correct nodes)
+	H       uint64 `json:"h"`
+	V       uint64 `json:"v"`
+	P       []int  `json:"p,omitempty"`        // strategy-specific parameters
+	Inst    uint64 `json:"inst,omitempty"`     // offset added to the instance id of everything this injection signs (0 = this instance)
+	HdrOnly bool   `json:"hdr_only,omitempty"` // nv: only the outer NEW_VIEW header (and the embedded proposal) carry the foreign instance id; the votes are for this instance
 }
 
 // Adversary holds the Byzantine and outsider keys. It can sign only with those, and can copy anything it has observed.
@@ -521,6 +522,10 @@ func (a *Adversary) newView(s *ByzSpec) {
 		return
 	}
 	com := w.Committee(primitives.BlockHeight(h))
+	hdrOff := a.instOff
+	if s.HdrOnly {
+		a.instOff = 0 // votes and proofs are made for this instance; only the outer header is foreign
+	}
 	var votes []VoteSpec
 	var voteBlocks []*fakes.Block
 	mode := par(s, 0) % 4
@@ -625,6 +630,7 @@ func (a *Adversary) newView(s *ByzSpec) {
 	case 2:
 		ppv = v + 1
 	}
+	a.instOff = hdrOff
 	ppr := a.ref(TPP, h, ppv, hash)
 	signer := s.As
 	if par(s, 3)%4 == 3 && len(w.Cfg.Byz) > 1 {
